@@ -75,7 +75,11 @@ fn main() {
                 eprintln!("family not found; available: {:?}", fams.iter().map(|f| f.name).collect::<Vec<_>>());
                 std::process::exit(2)
             });
-            let sc = (fam.generate)(seed);
+            let mut sc = (fam.generate)(seed);
+            if has("--c09-variant") {
+                // show the shifted run of the metamorphic pair instead of the base run
+                sc = utpsim_c09_variant(&sc);
+            }
             let (out, res) = check::evaluate(&property, &sc);
             if has("--scenario") {
                 println!("{}", serde_json::to_string_pretty(&sc).unwrap());
@@ -156,4 +160,8 @@ fn replay(path: &str, trace: bool) -> i32 {
             0
         }
     }
+}
+
+fn utpsim_c09_variant(sc: &scenario::Scenario) -> scenario::Scenario {
+    oracles::c09::variant(sc)
 }
